@@ -106,7 +106,7 @@ def dict_nodes(spec: morph.Spec, datum, path=(), out=None, depth=0):
 
 
 def strict_leaf(spec: morph.Spec) -> bool:
-    return spec.kind.startswith("scalar") and spec.kind != "scalar:none"
+    return spec.kind.startswith("scalar") and spec.kind not in ("scalar:none", "scalar:user:U3")    # U3 accepts any object
 
 
 def entry_both_case(ctx: Ctx, eng: morph.Engine, spec, datum):
@@ -242,7 +242,9 @@ def planted_case(ctx: Ctx, eng: morph.Engine, spec, datum, paths, label):
                          f"in {repr(spec.hint)[:100]}", dict(case, mode=m, got=got))
         else:  # FIRST
             if len(rep) != 1 or (got and got[0] not in want) or not got:
-                ctx.fail("first-not-exactly-one", f"FIRST reports {len(rep)} errors at {got}; planted {want}", dict(case, mode=m, got=got))
+                ctx.fail("first-not-exactly-one", f"FIRST reports {len(rep)} errors at {got}; planted {want}",
+                         dict(case, mode=m, got=got, reported=[[repr(list(t)), type(leaf).__name__, repr(getattr(leaf, "input_value", None))[:80]]
+                                                              for t, leaf in rep]))
 
 
 def renamed_layouts(ctx: Ctx, n: int):
